@@ -92,6 +92,23 @@ fn scheme_code(s: CompressionScheme) -> u8 { s as u8 }
 
 fn rt() -> tokio::runtime::Runtime { tokio::runtime::Builder::new_current_thread().build().unwrap() }
 
+/// A chunk that plain LZ4 shrinks while byte-grouping + LZ4 does not (so the BG4 writer takes its incompressible fallback although
+/// the data is compressible): a short random block, a gap of `gap` random bytes, the block again — the repeat is found by LZ4, but
+/// after the 4-way byte split the two copies (an odd distance apart) land in different groups in pieces too short to pay.
+pub fn bg4_hostile_chunk(rng: &mut Rng) -> Option<Vec<u8>> {
+    for _ in 0..400 {
+        let l = rng.range(24, 200) as usize; let gap = rng.range(0, 40) as usize;
+        let reps = rng.range(2, 4) as usize;
+        let block = rng.bytes(l);
+        let mut c = Vec::new();
+        for r in 0..reps { c.extend_from_slice(&block); if r + 1 < reps { let g = rng.bytes(gap | 1); c.extend_from_slice(&g); } }
+        let plain = lz4_compress_from_slice(&c).ok()?;
+        let grouped = lz4_compress_from_slice(&bg4_split(&c)).ok()?;
+        if plain.len() < c.len() && grouped.len() >= c.len() { return Some(c); }
+    }
+    None
+}
+
 pub fn run_roundtrip(ctx: &mut Ctx) {
     let ncases = if ctx.quick() { 60 } else { 700 };
     let rt = rt();
@@ -158,6 +175,9 @@ pub fn run_roundtrip(ctx: &mut Ctx) {
             chunks.push(gen_chunk(&mut rng, kind, len));
         }
         let scheme_kind = rng.below(4);
+        // under byte grouping (forced or by automatic selection) one or two chunks are compressible for plain LZ4 only: the
+        // BG4 writer's incompressible fallback on data that is NOT incompressible
+        if scheme_kind >= 2 && !many { for _ in 0..rng.range(1, 2) { if let Some(c) = bg4_hostile_chunk(&mut rng) { let k = rng.below(chunks.len() as u64) as usize; chunks[k] = c; ctx.stat("bg4_hostile_chunks"); } } }
         let scheme = match scheme_kind { 0 => Some(CompressionScheme::None), 1 => Some(CompressionScheme::LZ4), 2 => Some(CompressionScheme::ByteGrouping4LZ4), _ => None };
         let b = build(&chunks, scheme);
         let replay = format!("{{\"suite\":\"xorb\",\"seed\":{},\"case\":{},\"n\":{},\"scheme\":{}}}", ctx.seed, case_no, n, scheme_kind);
